@@ -28,6 +28,12 @@ package tup
 //@   site ).Read#2 ghostafter is.rderr = is.rderr || $ret != nil
 //@   site ).Read#3 ghostafter is.rderr = is.rderr || $ret != nil
 //@   sites ).Read = 4
+// what must be present once its enclosing item is: the entry count of the map, and for a value the BYTE head of the
+// simple list, its length and its bytes are read as required fields (their absence is then an error by the above)
+//@   site ).Read#0 assert [C06] $2 == 0 && $3
+//@   site ).Read#2 assert [C06] $2 == 0 && $3
+//@   site ).Read#3 assert [C06] $3
+//@   site ).Skip#2 assert [C06] $2 == 0 && $3
 //@   site Errorf#0 ghost is.rderr = true
 //@   ensures [C06] is.rderr ==> result != nil
 //@   loop 0 invariant [C06] !is.rderr
